@@ -21,11 +21,11 @@ Deg(e) == CASE e \in {"P1", "DG1", "vP1", "symP1", "RT1", "N1", "BDM1", "RTxDG0"
 \* integrand shapes; rank is implied
 Terms == {"mass", "stiff", "conv", "coefmass", "xmass", "cten", "divdiv", "curlcurl", "mixeddiv",
           "load", "gradload", "energy", "xint", "deriv", "cond", "absmax", "tworules", "hess", "cplx", "geo",
-          "mathfn", "mathfn2", "cmathfn", "bessel"}
+          "mathfn", "mathfn2", "cmathfn", "bessel", "ccond", "sesq"}
 Rank(t) == CASE t \in {"load", "gradload"} -> 1 [] t \in {"energy", "xint"} -> 0 [] OTHER -> 2
 \* polynomial degree added by the term on top of the two element degrees (coefficient/x factors)
 Extra(t) == CASE t \in {"conv", "coefmass", "xmass", "cplx"} -> 1 [] t = "xint" -> 2 [] OTHER -> 0
-NDeriv(t) == CASE t \in {"stiff", "cten", "divdiv", "curlcurl", "gradload", "cplx"} -> 2
+NDeriv(t) == CASE t \in {"stiff", "cten", "divdiv", "curlcurl", "gradload", "cplx", "sesq"} -> 2
                [] t \in {"conv", "mixeddiv"} -> 1 [] t = "hess" -> 4 [] OTHER -> 0
 
 Rules == {"exact", "custom", "vertex"}
@@ -53,6 +53,10 @@ Valid(c) ==
   \* term / element compatibility
   /\ (c.term \in {"conv", "cond", "absmax", "hess", "deriv", "cplx"} => Scalar(c.elem) /\ c.elem \notin {"real", "quad"})
   /\ (c.term = "cplx" => c.elem \in {"P1", "P2", "DG1"} /\ c.rule # "exact")
+  \* conditionals whose branches have different scalar kinds (real-typed literal / geometry vs complex data)
+  \* data in the conjugated slot of inner(): conj(g) in complex mode, g in real mode
+  /\ (c.term = "sesq" => c.elem \in {"P1", "P2", "DG1", "vP1"} /\ c.rule # "exact")
+  /\ (c.term = "ccond" => c.elem \in {"P1", "P2", "DG1", "DG0"} /\ c.rule # "exact")
   /\ (c.term = "geo" => c.cell \in {"interval", "triangle", "quadrilateral"} /\ c.elem \in {"P1", "P2", "DG0"}
                          /\ c.geom = "affine" /\ c.xdeg = 1)
   \* transcendental functions of coefficients / constants / x: libm on exact arguments (never an exact rule)
